@@ -53,6 +53,19 @@ Theorem C16_encode_total :
 Proof. exact encode_total. Qed.
 Print Assumptions C16_encode_total.
 
+(* The destination body.  EncodeIntoBody is given an EXISTING hclwrite body and replaces its
+   contents (Body.Clear, then SetAttributeValue — which looks the name up in the body and
+   replaces an attribute it finds where it stands — / AppendNewline / AppendBlock).  For every
+   accepted struct type, every value and EVERY destination [dst] (any items: attributes of
+   the same or other names, blocks, earlier encodings): afterwards the body holds exactly
+   the items [encode_items] names, in that order — the same as a fresh body gets; so every
+   theorem above about [encode] holds for any destination. *)
+Theorem C16_encode_into_any_destination :
+  forall dst s v, wf_schema s -> vtyped (FStruct s) v = true ->
+  exists items, encode_items s v = Some items /\ encode_into dst s v = Some items.
+Proof. exact encode_into_any_dest. Qed.
+Print Assumptions C16_encode_into_any_destination.
+
 (* For every accepted struct type and EVERY abstract file — missing / extra / duplicated /
    mistyped items, wrong label counts, null, unknown and marked values: decoding yields a
    value and diagnostics, never a panic. *)
